@@ -3,7 +3,7 @@ import ast
 
 from .. import dispatch
 from ..cfg import CFG
-from ..report import AnalysisError, norm
+from ..report import borrow, AnalysisError, norm
 from ..srcmodel import own_nodes, own_statements
 from ..facts import facts
 from ..terms import Resolver, alternatives, mentions, show, walk
@@ -46,6 +46,14 @@ def run(rep, ctx):
         borrow(rep, c20.r5_sources, ctx, "C20.R5", "C03.R7", keep=lambda o: o.key.startswith("joined-exponents"))
     except AnalysisError as e:
         rep.error("C03.R7", str(e))
+    from . import c10
+    rep.rule("C03.R8", "Arrays add and subtract element by element through the same database operation, operands and quantities in order, also for empty arrays (shared with C10.R1 / C10.R3 / C10.R6)")
+    try:
+        borrow(rep, c10.r1_one_impl, ctx, "C10.R1", "C03.R8")
+        borrow(rep, c10.r3b_result_quantity, ctx, "C10.R3", "C03.R8")
+        borrow(rep, c10.r6_passthrough, ctx, "C10.R6", "C03.R8")
+    except AnalysisError as e:
+        rep.error("C03.R8", str(e))
     rep.not_decided += [
         "the numeric result of a+b / a-b (arithmetic on runtime values)",
         "false rejection of dimension-compatible operands written with different symbols (m.m + m2)",
